@@ -7,6 +7,9 @@ package c20gen
 
 import (
 	"fmt"
+	"go/ast"
+	"go/parser"
+	"go/token"
 	"os"
 	"regexp"
 	"sort"
@@ -35,7 +38,26 @@ func Generate(pegPath, outPath string) error {
 			paths[m[1]] = true
 		}
 	}
+	// declarations of the initializer other than the package clause and the
+	// imports (helper functions, variables, types) are part of what the
+	// grammar source specifies: they are copied under new names and the code
+	// blocks are made to call the copies, so that a helper that differs
+	// between grammar.peg and the shipped file shows up as a behavioural
+	// difference of the actions that use it.
+	prelude, rename, perr := preludeDecls(g.Init)
+	if perr != nil {
+		return fmt.Errorf("initializer block: %v", perr)
+	}
+	apply := func(code string) string {
+		for _, rn := range rename {
+			code = rn.re.ReplaceAllString(code, rn.repl)
+		}
+		return code
+	}
 	var sb, body strings.Builder
+	for _, d := range prelude {
+		body.WriteString(apply(d) + "\n\n")
+	}
 	type entry struct{ key, call string }
 	var entries []entry
 	var rec func(rule string, n *pegread.Node)
@@ -56,7 +78,7 @@ func Generate(pegPath, outPath string) error {
 				params = append(params, a+" any")
 				args = append(args, fmt.Sprintf("labels[%q]", a))
 			}
-			fmt.Fprintf(&body, "func (c *current) verifRef%s(%s) %s {%s}\n\n", key, strings.Join(params, ", "), ret, n.Code)
+			fmt.Fprintf(&body, "func (c *current) verifRef%s(%s) %s {%s}\n\n", key, strings.Join(params, ", "), ret, apply(n.Code))
 			call := fmt.Sprintf("c.verifRef%s(%s)", key, strings.Join(args, ", "))
 			entries = append(entries, entry{key, call})
 		}
@@ -87,4 +109,56 @@ func Generate(pegPath, outPath string) error {
 	}
 	sb.WriteString("\treturn m\n}\n")
 	return os.WriteFile(outPath, []byte(sb.String()), 0o644)
+}
+
+type renameRule struct {
+	re   *regexp.Regexp
+	repl string
+}
+
+// preludeDecls parses the initializer as a Go file and returns the source of
+// its non-import declarations together with the renaming rules.
+func preludeDecls(init string) (decls []string, rules []renameRule, err error) {
+	fset := token.NewFileSet()
+	f, err := parser.ParseFile(fset, "initializer.go", init, parser.ParseComments)
+	if err != nil {
+		return nil, nil, err
+	}
+	text := func(n ast.Node) string {
+		return init[fset.Position(n.Pos()).Offset:fset.Position(n.End()).Offset]
+	}
+	addName := func(name string, method bool) {
+		if name == "_" || name == "init" {
+			return
+		}
+		if method {
+			rules = append(rules, renameRule{regexp.MustCompile(`\.` + regexp.QuoteMeta(name) + `\b`), ".verifRefPrelude" + name})
+			rules = append(rules, renameRule{regexp.MustCompile(`(\)\s+)` + regexp.QuoteMeta(name) + `(\()`), "${1}verifRefPrelude" + name + "${2}"})
+		} else {
+			rules = append(rules, renameRule{regexp.MustCompile(`(^|[^.\w])` + regexp.QuoteMeta(name) + `\b`), "${1}verifRefPrelude" + name})
+		}
+	}
+	for _, d := range f.Decls {
+		switch x := d.(type) {
+		case *ast.FuncDecl:
+			addName(x.Name.Name, x.Recv != nil)
+			decls = append(decls, text(x))
+		case *ast.GenDecl:
+			if x.Tok == token.IMPORT {
+				continue
+			}
+			for _, sp := range x.Specs {
+				switch y := sp.(type) {
+				case *ast.ValueSpec:
+					for _, n := range y.Names {
+						addName(n.Name, false)
+					}
+				case *ast.TypeSpec:
+					addName(y.Name.Name, false)
+				}
+			}
+			decls = append(decls, text(x))
+		}
+	}
+	return decls, rules, nil
 }
